@@ -1533,3 +1533,40 @@ Section PartitionProofs.
     - intros k Hk. rewrite starts_spec by auto. rewrite N.add_0_l. reflexivity.
   Qed.
 End PartitionProofs.
+
+(* ==== the constructor's intermediate wait (fixed variant) =================== *)
+(* The real constructor does not go from the last add_task straight to
+   stop_all_workers: it first blocks on its own cv until parts_done == parts.size().
+   That wait can only be left if the workers keep making progress while the
+   producer is outside add_task / stop_all_workers.  In the fixed variant: as
+   long as a task is queued, no stop flag is set and the producer is not between
+   its lock and its notify, no worker sleeps and some worker is enabled. *)
+Theorem pool_work_progress_fixed W script s :
+  wf_script script = true -> reachable true W script s -> W >= 1 ->
+  pending (pp s) = false -> (forall i, stopped s i = false) -> queue s <> [] ->
+  (forall i, nth_error (wpcs s) i <> Some WSleep) /\
+  exists i, enabled true s (S i) = true.
+Proof.
+  intros Hwf R HW Hp Hst Hq.
+  assert (I := reachable_inv _ _ _ _ Hwf R). assert (J := reachable_inv2 _ _ _ _ R).
+  assert (Hns : forall i, nth_error (wpcs s) i <> Some WSleep).
+  { intros i Hi. destruct (i_w _ _ I _ _ Hi) as [_ Hs]. simpl in Hs.
+    destruct (Hs eq_refl) as [[_ Hc]|Hc]; [contradiction|congruence]. }
+  split; auto.
+  destruct (owner s) as [x|] eqn:Eo.
+  - assert (Hcs := i_own _ _ I x Eo). destruct x as [|i]; simpl in Hcs.
+    + exfalso. destruct (pp s); simpl in *; discriminate.
+    + exists i. unfold enabled; simpl. unfold wstep.
+      destruct (nth_error (wpcs s) i) as [pc|]; [|discriminate].
+      destruct pc; simpl in Hcs; try discriminate; auto. destruct (queue s); auto.
+  - assert (Hl := j_W _ _ _ J).
+    destruct (nth_error (wpcs s) 0) as [pc|] eqn:H0.
+    + exists 0. unfold enabled; simpl. unfold wstep. rewrite H0, Eo.
+      destruct (i_w _ _ I _ _ H0) as [Hm Hr]. rewrite Eo in Hm.
+      destruct pc; auto;
+        try (exfalso; assert (Hc : @None nat = Some 1) by (apply Hm; reflexivity); discriminate).
+      * exfalso. apply (Hns 0). auto.
+      * exfalso. simpl in Hr. destruct Hr as [Hr _]. unfold stopped in Hst. unfold stopAt in Hr.
+        rewrite Hst in Hr. discriminate.
+    + apply nth_error_None in H0. lia.
+Qed.
